@@ -369,6 +369,8 @@ func verifyFunc(prog *Program, fi *FuncInfo, fc *FuncContract, mode *ModeDef) (r
 				t := rparts[gi].t
 				x.vc.obls[n0].ReplayGoal = &t
 				x.vc.obls[n0].Replay = ri
+				x.vc.obls[n0].ReplayClause = &replayClause{Expr: en.Expr, Lets: fc.Lets, RecvName: fc.RecvName, ParamNames: fc.ParamNames, ResultNames: fc.ResultNames,
+					Preds: prog.Contracts.Preds, Scope: fi.Pkg.Types.Scope()}
 			}
 		}
 	}
